@@ -4,7 +4,10 @@
    node = L:idx | C:idx:hexexpr | I:hexsrc | D:width-or-minus:hex,hex,... | S:hex | A:hex | @:hex
    analysis = 11 is the code as it is (get_match_statically_known after the repairs of F72 and F73); a 0 switches that repair off.
    optional 8th field `report`: prints  REPORT TAB instr-known TAB instr-known-before-F72/F73 TAB data-known TAB sym-known  (bit strings)
-   answer: OK TAB bits TAB iterations TAB name=hexvalue;... | ERR *)
+   answer: OK TAB bits TAB iterations TAB name=hexvalue;... | ERR
+   table query:  T TAB name-hex name-hex ...  ->  TABLE TAB name-hex=vf;...   v = known_value_builtin, f = known_asm_builtin (0|1):
+   the model's copies of get_statically_known_value_builtin_fn (src/expr/builtin_fn.rs) and get_statically_known_builtin_fn
+   (src/asm/resolver/eval_fn.rs), compared with the source text on every run by tools/props/ext_static.py *)
 let out_bits (v : z) (len : int) =
   let bits = match v with Z0 -> [] | Zpos p -> pos_bits p [] | Zneg _ -> [] in
   let bits = List.init (max 0 (len - List.length bits)) (fun _ -> 0) @ bits in
@@ -46,5 +49,13 @@ let () = iter_lines (fun line ->
          (match static_report (indexed = "1") d names_t ns with
           | None -> print_endline "ERR"
           | Some (((ki, ki_old), kd), ks) -> Printf.printf "REPORT\t%s\t%s\t%s\t%s\n" (bools ki) (bools ki_old) (bools kd) (bools ks))
-       | _ -> print_endline "?")
+       | ["T"; names] ->
+    let b x = if x then "1" else "0" in
+    print_endline ("TABLE\t" ^ String.concat ";" (List.map (fun h -> let t = text_of_hex h in h ^ "=" ^ b (known_value_builtin t) ^ b (known_asm_builtin t))
+                                                     (List.filter (fun x -> x <> "") (String.split_on_char ' ' names))))
+  | _ -> print_endline "?")
+  | ["T"; names] ->
+    let b x = if x then "1" else "0" in
+    print_endline ("TABLE\t" ^ String.concat ";" (List.map (fun h -> let t = text_of_hex h in h ^ "=" ^ b (known_value_builtin t) ^ b (known_asm_builtin t))
+                                                     (List.filter (fun x -> x <> "") (String.split_on_char ' ' names))))
   | _ -> print_endline "?")
